@@ -215,6 +215,8 @@ void op_retry(World& W, int wi)
 {
   WInfo& x = W.workers[wi];
   if (!worker_busy(W, wi)) return;
+  // Y6 may run under the logger registry lock: completing a blocking removal makes the harness query the registry
+  if (W.cur_point == 6 && x.pending == OpKind::RemoveBlocking) return;
   if (W.cur_point == 1 && !x.has_logged)
   {
     // the worker's FIRST log call (or flush) would complete inside Y1: same window as a first log issued there
